@@ -36,7 +36,7 @@ def main():
             jobs.append({'id': 's_%d' % n, 'kind': 'keccak', 'a': n, 'b': 1, 'abstract': ['keccak.KeccakF']})
             tasks.append({'kind': 'sponge', 'n': n, 'sha3': True, 'id': 's_%d' % n})
         t = time.time()
-        paths = run_dump(jobs)
+        paths = run_dump(jobs, procs=6)      # a multi-block sponge compile peaks at ~2.5 GB in gnark's builder
         run.log('compiled %d circuits in %.1fs' % (len(jobs), time.time() - t))
         for tk in tasks:
             tk['path'] = paths[tk['id']]
